@@ -18,7 +18,7 @@ def cases(tier, seed):
             alpha = ['a', 'b', 'c']
             A = S.random_enfa(rng, rng.choice([1, 2, 3]), rng.sample(alpha, rng.choice([1, 2])), eps=rng.random() < 0.6)
             B = S.random_enfa(rng, rng.choice([1, 2, 3]), rng.sample(alpha, rng.choice([1, 2])), eps=rng.random() < 0.6)
-            sa = rng.choice(['int', 'str', 'str', 'adv-pair']); sb = sa if rng.random() < 0.6 else rng.choice(['int', 'str'])
+            sa = rng.choice(['int', 'str', 'adv-pair', 'adv-pair']); sb = sa if rng.random() < 0.6 else rng.choice(['int', 'str', 'adv-pair'])
             A, B = G.rename(A, sa), G.rename(B, sb); origin = f'random ({sa},{sb})'
         yield {'op': 'binary', 'A': S.to_json(A), 'B': S.to_json(B), 'same': rng.random() < 0.05, 'origin': origin}
 
